@@ -10,6 +10,8 @@ package logstore
 
 import (
 	"fmt"
+	"io"
+	"log"
 	"math"
 	"os"
 	"runtime"
@@ -22,6 +24,7 @@ import (
 	"time"
 
 	"github.com/lni/dragonboat/v4/internal/tan"
+	"github.com/lni/dragonboat/v4/logger"
 	"github.com/lni/dragonboat/v4/raftio"
 	pb "github.com/lni/dragonboat/v4/raftpb"
 	"github.com/lni/dragonboat/v4/verifsim/choice"
@@ -81,6 +84,7 @@ type harness struct {
 	firedStep int
 	firedAt   string
 	curKind   string
+	stop      bool // an oracle fired
 	jobs      []obsJob
 	faults    int
 	kvs       []*kvStore // every Pebble kv store opened and not yet seen closing
@@ -487,6 +491,11 @@ func (h *harness) window(op *wop) outcome {
 	}
 	h.mu.Lock()
 	h.intra = false
+	if h.mode != "crash" && h.plan.active && !h.plan.fired && h.plan.enumK == 0 && h.plan.win == h.win {
+		// the window had fewer events than drawn: first event of the next one
+		h.plan.win++
+		h.plan.off = 1
+	}
 	h.mu.Unlock()
 	return out
 }
@@ -505,7 +514,15 @@ func (h *harness) tanDBs() int {
 
 // ---- running operations ----
 
-func (h *harness) c09(oracle, detail string) { h.ctx.Violate("C09", oracle, "%s", detail) }
+func (h *harness) c09(oracle, detail string) { h.violate("C09", oracle, "%s", detail) }
+
+// violate reports an oracle firing and ends the run: once the store and the
+// model have diverged nothing that follows means anything, whichever property
+// the run is counted for.
+func (h *harness) violate(property, oracle, format string, args ...interface{}) {
+	h.stop = true
+	h.ctx.Violate(property, oracle, format, args...)
+}
 
 func idArgs(ids []raftio.NodeInfo) []uint64 {
 	var a []uint64
@@ -667,7 +684,7 @@ func (h *harness) checkOthers(op *wop) {
 		}
 		p := p
 		h.chk.full(h.model.Get(p), func(o, d string) {
-			h.ctx.Violate("C09", "other-replica-damaged", "%s of %d/%d damaged replica %d/%d of the same store: %s: %s",
+			h.violate("C09", "other-replica-damaged", "%s of %d/%d damaged replica %d/%d of the same store: %s: %s",
 				op.kind, op.id.ShardID, op.id.ReplicaID, p.ShardID, p.ReplicaID, o, d)
 		})
 	}
@@ -772,7 +789,7 @@ func (h *harness) afterFault(op *wop, out outcome, before, after map[raftio.Node
 		wiped[op.id] = true
 	}
 	h.recoverAndVerify(cands, touchedOracle, how, wiped)
-	if h.ctx.Violated() {
+	if h.stop {
 		return
 	}
 	if redo {
@@ -785,7 +802,7 @@ func (h *harness) afterFault(op *wop, out outcome, before, after map[raftio.Node
 		r.apply(sc)
 		o := h.window(r)
 		if o.failed() {
-			h.ctx.Violate("C10", "unexpected-error", "%s failed when repeated after recovery: %v", h.describe(r), o.err)
+			h.violate("C10", "unexpected-error", "%s failed when repeated after recovery: %v", h.describe(r), o.err)
 			return
 		}
 		h.commit(r, map[raftio.NodeInfo]*RefReplica{rid: sc.Nodes[rid]})
@@ -845,7 +862,7 @@ func (h *harness) recoverAndVerify(cands map[raftio.NodeInfo][]*RefReplica, touc
 		err = h.openStep()
 	}()
 	if err != nil || panicked {
-		h.ctx.Violate("C10", "reopen-failed", "store does not reopen after %s (%s): err=%v panic=%v", h.firedAt, how, err, pval)
+		h.violate("C10", "reopen-failed", "store does not reopen after %s (%s): err=%v panic=%v", h.firedAt, how, err, pval)
 		h.retire()
 		return
 	}
@@ -915,7 +932,7 @@ func (h *harness) recoverAndVerify(cands map[raftio.NodeInfo][]*RefReplica, touc
 					oracle = firstOracle
 				}
 			}
-			h.ctx.Violate("C10", oracle, "after %s (%s) replica %d/%d matches none of %d admissible states: vs newest {%s}%s",
+			h.violate("C10", oracle, "after %s (%s) replica %d/%d matches none of %d admissible states: vs newest {%s}%s",
 				h.firedAt, how, p.ShardID, p.ReplicaID, len(list), fails[0], func() string {
 					if len(fails) > 1 {
 						return " vs previous {" + fails[1] + "}"
@@ -929,7 +946,7 @@ func (h *harness) recoverAndVerify(cands map[raftio.NodeInfo][]*RefReplica, touc
 	col := &collector{}
 	h.chk.list(h.model, h.known(), h.unknown, col.rep)
 	if len(col.f) > 0 {
-		h.ctx.Violate("C10", "acked-save-lost", "after %s (%s): %s", h.firedAt, how, col.String())
+		h.violate("C10", "acked-save-lost", "after %s (%s): %s", h.firedAt, how, col.String())
 	}
 	h.ctx.Count("probe.recovery_verified", 1)
 }
@@ -959,7 +976,7 @@ func (h *harness) known() []raftio.NodeInfo {
 
 // queries performs the random queries that follow every operation.
 func (h *harness) queries() {
-	if h.db == nil || h.ctx.Violated() {
+	if h.db == nil || h.stop {
 		return
 	}
 	h.chk.db = h.db
@@ -1045,8 +1062,25 @@ func atoi(s string, def int) int {
 	return def
 }
 
+var quietOnce sync.Once
+
+// quiet silences the info level chatter of the stores (Tan logs every open and
+// close, Pebble every background error of a crashed instance through the std
+// logger). Panicf still panics.
+func quiet() {
+	quietOnce.Do(func() {
+		for _, pkg := range []string{"tan", "logdb", "pebblekv", "config", "settings"} {
+			logger.GetLogger(pkg).SetLevel(logger.ERROR)
+		}
+		if os.Getenv("LOGSTORE_STDLOG") == "" {
+			log.SetOutput(io.Discard)
+		}
+	})
+}
+
 // Run executes one simulated run.
 func Run(ctx *runner.Ctx) *runner.Result {
+	quiet()
 	if os.Getenv("LOGSTORE_DEBUG_GOROUTINES") != "" {
 		time.Sleep(20 * time.Millisecond)
 		fmt.Fprintf(os.Stderr, "goroutines at start=%d\n", runtime.NumGoroutine())
@@ -1176,7 +1210,7 @@ func Run(ctx *runner.Ctx) *runner.Result {
 	// window 0: the first open (on an empty disk)
 	h.win = -1
 	h.doOp(&wop{kind: opReopen})
-	for i := 0; i < h.nOps && !ctx.Violated() && h.db != nil; i++ {
+	for i := 0; i < h.nOps && !h.stop && h.db != nil; i++ {
 		op := h.g.next(len(h.jobs) > 0, true)
 		h.doOp(&op)
 		if h.mode == "crash" && !h.enum && h.plan.fired && h.faults < 2 && h.src.Chance(1, 2) {
@@ -1186,12 +1220,12 @@ func Run(ctx *runner.Ctx) *runner.Result {
 
 	// final: everything the model holds must be there, also after a clean
 	// close and reopen
-	if !ctx.Violated() && h.db != nil {
+	if !h.stop && h.db != nil {
 		h.mu.Lock()
 		h.plan.active = false
 		h.mu.Unlock()
 		h.fullCheck(h.c09)
-		if !ctx.Violated() {
+		if !h.stop {
 			h.ctx.Ev("final-reopen")
 			op := wop{kind: opReopen}
 			out := h.window(&op)
